@@ -222,3 +222,45 @@ Print Assumptions C10_filter_rid.
 Print Assumptions C10_filter_qid.
 Print Assumptions C10_files_keep.
 Print Assumptions C10_qid_records.
+
+(* ==================================================================================================================================
+   APPENDED: THE WHOLE PROGRAM (model/Program.v: program_files cl ref_rows qry_rows = the data lines — the exact text, XmapEntryID included — of
+   every XMAP file, from the rows of the two CMAP files and the command line, with the EXECUTABLE seeding stage; proofs/ProgramProofs2.v).
+   C10_program_row_order: the result (every data line of every file, or the exception) is the same for ANY permutation of the rows of the
+   reference file and ANY permutation of the rows of the query file — so also for any order of the molecules — provided no molecule has two
+   end-marker rows (C17_two_markers: with two, the first in file order gives the length).  From C17_perm; the seeding stage is a function of the maps.
+   C10_program_id_filters: -rId / -qId are the same as physically restricting the files to the listed molecules. *)
+From Coq Require Import String.
+Require Import Wiring Cmap Program ProgramProofs1 ProgramProofs2.
+Require ProgramExamples.
+
+Theorem C10_program_row_order cl rr rr' qr qr' : Permutation rr rr' -> Permutation qr qr' ->
+  (forall i, (List.length (CmapProofs.markers_of rr i) <= 1)%nat) -> (forall i, (List.length (CmapProofs.markers_of qr i) <= 1)%nat) ->
+  program_files cl rr' qr' = program_files cl rr qr.
+Proof. exact (program_row_order cl rr rr' qr qr'). Qed.
+
+Theorem C10_program_id_filters cl rr qr :
+  program_files cl rr qr =
+  program_files (with_ids cl [] []) (match cl_rids cl with [] => rr | ids => keep_rows (fun i => mem_id i ids) rr end)
+                                    (match cl_qids cl with [] => qr | ids => keep_rows (fun i => mem_id i ids) qr end).
+Proof. exact (program_id_filters cl rr qr). Qed.
+
+(* non-vacuity: the files of proofs/ProgramExamples.v have one end marker per molecule; both files reversed (molecules in the opposite order, every
+   molecule's rows in the opposite order) give the same data lines in mode `all`, and these are not empty; -qId 3 12 = the query file without
+   molecules 7 and 9 *)
+Example C10_program_nonvacuous :
+  (forall i, (List.length (CmapProofs.markers_of ProgramExamples.px_rr i) <= 1)%nat) /\ (forall i, (List.length (CmapProofs.markers_of ProgramExamples.px_qr i) <= 1)%nat) /\
+  program_files (ProgramExamples.px_cl All_) (rev ProgramExamples.px_rr) (rev ProgramExamples.px_qr) =
+    program_files (ProgramExamples.px_cl All_) ProgramExamples.px_rr ProgramExamples.px_qr /\
+  program_files (ProgramExamples.px_cl All_) ProgramExamples.px_rr ProgramExamples.px_qr =
+    Ok [(""%string, [ProgramExamples.px_line7_joined "1"]); ("_1"%string, [ProgramExamples.px_line3 "1"; ProgramExamples.px_line7_first "2"]);
+        ("_2"%string, [ProgramExamples.px_line7_second "1"])] /\
+  program_files (ProgramExamples.px_with_qids Best [3; 12]) ProgramExamples.px_rr ProgramExamples.px_qr =
+    Ok [(""%string, [ProgramExamples.px_line3 "1"])] /\
+  ProgramExamples.px_with_qids Best [3; 12] = with_ids (ProgramExamples.px_cl Best) [] [3; 12] /\
+  keep_rows (fun i => mem_id i [3; 12]) ProgramExamples.px_qr = rev (ProgramExamples.px_rows_of ProgramExamples.px_q3).
+Proof. split; [exact (proj1 ProgramExamples.px_markers)|]. split; [exact (proj2 ProgramExamples.px_markers)|].
+  split; [apply C10_program_row_order; [apply Permutation_rev | apply Permutation_rev | exact (proj1 ProgramExamples.px_markers) | exact (proj2 ProgramExamples.px_markers)]|].
+  split; [exact (proj1 (proj2 ProgramExamples.px_files))|]. split; [exact ProgramExamples.px_qid_filter|]. split; [reflexivity|]. vm_compute. reflexivity. Qed.
+Print Assumptions C10_program_row_order.
+Print Assumptions C10_program_id_filters.
